@@ -293,7 +293,7 @@ void dyadic_rational_mul_2exp(lp_dyadic_rational_t* mul, const lp_dyadic_rationa
   if (a->n >= n) {
     mul->n = a->n - n;
   } else {
-    mpz_mul_2exp(&mul->a, &a->a, n - mul->n);
+    mpz_mul_2exp(&mul->a, &a->a, n - a->n);
     mul->n = 0;
   }
 }
